@@ -31,6 +31,9 @@ CONSTANTS T,            \* length of the base input series
           S0Kinds,      \* where a whole run takes its initial states from: "given" (a caller array with fixed
                         \* content) and/or "init" (obj.InitialiseStates(1) of the object being run)
           HandOvers,    \* hand-over modes at a resume: subset of {"inplace", "copygo", "copyc"}
+          OutKinds,     \* what the caller's OUTPUT array holds when a whole run starts: "zero" (a fresh array) and/or "used"
+                        \* (whatever an earlier run, or malloc, left there).  It appears in the record of a run and in NO
+                        \* label: results are a function of parameters, initial states and inputs only (OutputContentIrrelevant)
           Emit
 
 VARIABLES obj,      \* Objs -> [params: 0 | p]  (0 = ApplyParameters not called yet); DOMAIN = created objects
@@ -73,9 +76,9 @@ Apply == /\ ~done /\ nops < MaxOps /\ chain = <<>> /\ ~ChainJustCompleted
 \* a whole run [0, len) from the initial states: every output and the final state are observed
 RunWhole ==
     /\ ~done /\ nops < MaxOps /\ chain = <<>> /\ ~Splits
-    /\ \E o \in DOMAIN obj, iv \in IVars, s0 \in S0Kinds :
+    /\ \E o \in DOMAIN obj, iv \in IVars, s0 \in S0Kinds, o0 \in OutKinds :
          /\ obj[o].params # 0
-         /\ Log([op |-> "run", o |-> o, iv |-> iv, a |-> 0, b |-> LenOf(iv), handover |-> "none", s0 |-> s0,
+         /\ Log([op |-> "run", o |-> o, iv |-> iv, a |-> 0, b |-> LenOf(iv), handover |-> "none", s0 |-> s0, o0 |-> o0,
                  outs |-> [t \in 1..LenOf(iv) |-> OutLabel(obj[o].params, s0, iv, t - 1)],
                  st |-> StLabel(obj[o].params, s0, iv, LenOf(iv))])
     /\ UNCHANGED <<obj, chain, done>>
@@ -89,13 +92,13 @@ RunSegment ==
          /\ \/ /\ chain = <<>>                       \* first segment: from the initial states
                /\ \E b \in 1..(T - 1) :
                     /\ chain' = [p |-> obj[o].params, pos |-> b]
-                    /\ Log([op |-> "run", o |-> o, iv |-> <<"base", T>>, a |-> 0, b |-> b, handover |-> "none", s0 |-> "given",
+                    /\ Log([op |-> "run", o |-> o, iv |-> <<"base", T>>, a |-> 0, b |-> b, handover |-> "none", s0 |-> "given", o0 |-> "zero",
                             outs |-> [t \in 1..b |-> OutLabel(obj[o].params, "given", <<"base", T>>, t - 1)],
                             st |-> StLabel(obj[o].params, "given", <<"base", T>>, b)])
             \/ /\ chain # <<>> /\ chain.p = obj[o].params
                /\ \E b \in (chain.pos + 1)..T, h \in HandOvers :
                     /\ chain' = IF b = T THEN <<>> ELSE [chain EXCEPT !.pos = b]
-                    /\ Log([op |-> "run", o |-> o, iv |-> <<"base", T>>, a |-> chain.pos, b |-> b, handover |-> h, s0 |-> "given",
+                    /\ Log([op |-> "run", o |-> o, iv |-> <<"base", T>>, a |-> chain.pos, b |-> b, handover |-> h, s0 |-> "given", o0 |-> "zero",
                             outs |-> [t \in 1..(b - chain.pos) |-> OutLabel(obj[o].params, "given", <<"base", T>>, chain.pos + t - 1)],
                             st |-> StLabel(obj[o].params, "given", <<"base", T>>, b)])
     /\ UNCHANGED <<obj, done>>
@@ -126,6 +129,13 @@ Causal == \A k \in Runs : \A t \in 1..Len(hist[k].outs) :
                  hist[k].outs[t] = OutLabel(hist[k].outs[t][2], hist[k].s0, <<"base", T>>, hist[k].a + t - 1)
 
 \* C14 purity: a label never mentions an object or a position in the history
+\* two whole runs that agree on parameter content, initial-state source and input variant carry the same labels whatever
+\* their output arrays held before
+OutputContentIrrelevant == \A k, l \in Runs :
+    (hist[k].a = 0 /\ hist[l].a = 0 /\ hist[k].b = LenOf(hist[k].iv) /\ hist[l].b = LenOf(hist[l].iv)
+       /\ hist[k].iv = hist[l].iv /\ hist[k].s0 = hist[l].s0 /\ hist[k].outs[1][2] = hist[l].outs[1][2])
+    => (hist[k].outs = hist[l].outs /\ hist[k].st = hist[l].st)
+
 PureLabels == \A k \in Runs : \A t \in 1..Len(hist[k].outs) : Len(hist[k].outs[t]) = 4 /\ hist[k].outs[t][1] = "out"
 
 \* C06: consecutive segments tile the period: every timestep's output is produced exactly once, in order,
